@@ -114,32 +114,31 @@ Definition hours_in_use (m : model) (sps : list (uuid * spq)) : N :=
   N.of_nat (fold_right Nat.add O
     (map (fun d => hours_of_day (m_sched m) (flat_map (fun y => nth_day y d) ys)) (seq 0 year_len))).
 
-(* schedule average: mean over the expanded year of the daily means *)
-Definition day_average (db : scheddb) (id : uuid) : option Q :=
+(* schedule average: mean over the expanded year of the daily means; daily schedules that are not
+   defined contribute nothing, an empty expansion or an empty day averages to 0 *)
+Definition day_average (db : scheddb) (id : uuid) : Q :=
   match day_entry db id with
-  | Some d => match sd_values d with [] => None | vs => Some (qsum vs / inject_Z (Z.of_nat (length vs))) end
-  | None => None
+  | Some d => match sd_values d with [] => 0 | vs => qsum vs / inject_Z (Z.of_nat (length vs)) end
+  | None => 0
+  end.
+Definition year_average (db : scheddb) (id : uuid) : Q :=
+  let ds := expand db id in
+  match ds with
+  | [] => 0
+  | _ => qsum (map (day_average db) ds) / inject_Z (Z.of_nat (length ds))
+  end.
+Definition opt_avg (db : scheddb) (o : option uuid) : option Q :=
+  match o with Some id => Some (year_average db id) | None => Some 0 end.
+Definition loads_avg (m : model) (l : loads) : option Q :=
+  match opt_avg (m_sched m) (ld_people_sch l), opt_avg (m_sched m) (ld_light_sch l), opt_avg (m_sched m) (ld_equip_sch l) with
+  | Some p, Some li, Some e => Some (p * ld_people_sens l + li * ld_light l + e * ld_equip l)
+  | _, _, _ => None
   end.
 Fixpoint opt_sum (l : list (option Q)) : option Q :=
   match l with
   | [] => Some 0
   | Some x :: r => match opt_sum r with Some s => Some (Qred (x + s)) | None => None end
   | None :: _ => None
-  end.
-Definition year_average (db : scheddb) (id : uuid) : option Q :=
-  let ds := expand db id in
-  match ds with
-  | [] => None   (* 0/0 in the code *)
-  | _ => match opt_sum (map (day_average db) ds) with
-         | Some s => Some (s / inject_Z (Z.of_nat (length ds)))
-         | None => None end
-  end.
-Definition opt_avg (db : scheddb) (o : option uuid) : option Q :=
-  match o with Some id => year_average db id | None => Some 0 end.
-Definition loads_avg (m : model) (l : loads) : option Q :=
-  match opt_avg (m_sched m) (ld_people_sch l), opt_avg (m_sched m) (ld_light_sch l), opt_avg (m_sched m) (ld_equip_sch l) with
-  | Some p, Some li, Some e => Some (p * ld_people_sens l + li * ld_light l + e * ld_equip l)
-  | _, _, _ => None
   end.
 
 Definition space_load (m : model) (s : spq) : option Q :=
